@@ -71,6 +71,10 @@
  *   failallocafter=init count only allocations made after the channel set-up completed
  *   failallocsticky=1   every allocation from the n-th on fails
  *   allocstats=1        print ALLOCS without failing anything
+ *   lctrace=1           print "LC <event> ..." lines: LC TI <id> for every query id drawn from
+ *                       ares_generate_new_id, plus whatever a trace module linked next to sim.c
+ *                       prints through sim_ev() (harness/chan01_trace.c wraps library-internal
+ *                       call sites of the request lifecycle, see there).  Off by default.
  *                       Allocations made by the simulator's own use of the record API
  *                       (building requests for send/search, building responses, parsing
  *                       legacy answers for the CB dump) are neither counted nor failed.
@@ -258,6 +262,9 @@
  * Virtual descriptors are 100+k and never reused within a case.  At most 512 sockets per
  * case (then asocket fails with EMFILE).
  */
+/* print one event line of the current case ("<k> <text>") / is lctrace=1 set for this case */
+void sim_ev(const char *fmt, ...);
+int  sim_lctrace(void);
 void sim_global_init(void);
 void sim_global_cleanup(void);
 void sim_run_case(long idx, const char *line);
